@@ -28,6 +28,11 @@ func (e AddressMismatchError) Error() string {
 
 var zeroInt = &big.Int{}
 
+// settlementCacheExpire is how long the balance that a submitted settlement
+// is going to leave behind is served from the cache before the node is asked
+// again (the settlement's Balance event normally comes long before that).
+const settlementCacheExpire = 10 * time.Minute
+
 // ErrDepositTimelocked is returned when a balance is checked but the deposit
 // is timelocked.
 var ErrDepositTimelocked = errors.New("deposit is timelocked")
@@ -102,11 +107,18 @@ func (p *contractPayment) resetSettling() {
 	p.settling = nil
 }
 
+// settled forgets the outstanding settlement of the account.
+func (p *contractPayment) settled(addr common.Address) {
+	p.settleMu.Lock()
+	defer p.settleMu.Unlock()
+	delete(p.settling, addr)
+}
+
 // acceptBalanceEvent returns whether a Balance event of the account, emitted
-// by the transaction txHash, says something new. A settlement sets the
+// by the transaction txHash, can be taken at its word. A settlement sets the
 // balance to a value that the pool knows (and caches) from the moment it
-// submits it; until the settlement's own event arrives, every other event of
-// the account describes a state from before it.
+// submits it; until the settlement's own event arrives, another event of the
+// account may well describe a state from before it.
 func (p *contractPayment) acceptBalanceEvent(addr common.Address, txHash common.Hash) bool {
 	p.settleMu.Lock()
 	defer p.settleMu.Unlock()
@@ -187,7 +199,13 @@ func (p *contractPayment) SubscribeBalance(ctx context.Context, handler func(acc
 			case balanceEvent := <-sink:
 				account := store.Account(balanceEvent.Account.Hex())
 				if !p.acceptBalanceEvent(balanceEvent.Account, balanceEvent.Raw.TxHash) {
-					logger.Printf("SubscribeBalance: Skipping event from before the outstanding settlement of account: %s", account)
+					// Not this value, but something did happen to the account
+					// (and the settlement that is waited for may never be
+					// mined, or its event may have come and gone already):
+					// let the next request ask the node, which knows what is
+					// mined and what is pending.
+					logger.Printf("SubscribeBalance: Not trusting event during the outstanding settlement of account: %s", account)
+					p.balanceCache.Delete(account)
 					continue
 				}
 				logger.Printf("SubscribeBalance: Processing event for account: %s", account)
@@ -266,6 +284,10 @@ func (p *contractPayment) GetBalance(account store.Account) (*big.Int, error) {
 		return nil, ErrDepositTimelocked
 	}
 	logger.Printf("Retrieved contract balance for %q in %s: %d (mined: %d)", account, time.Now().Sub(timer), r.Balance, mined.Balance)
+	if r.Balance.Cmp(mined.Balance) == 0 {
+		// Nothing of this account is on its way, a settlement neither.
+		p.settled(addr)
+	}
 	if cmp := r.Balance.Cmp(mined.Balance); cmp != 0 {
 		// Something is on its way. There will be a Balance event if it gets
 		// mined, but none if it does not: don't keep this value.
@@ -309,6 +331,8 @@ func (p *contractPayment) OpSettle(account store.Account, paymentAmount *big.Int
 	// Neither must an event from before the settlement that is still on its way
 	// bring it back.
 	p.startSettling(addr, txn.Hash())
-	p.balanceCache.Set(account, new(big.Int).Set(newBalance))
+	// Until the settlement is mined. If it never is (dropped by the node,
+	// replaced), no event will say so: don't believe it for longer than this.
+	p.balanceCache.SetProvisional(account, new(big.Int).Set(newBalance), settlementCacheExpire)
 	return txn.Hash().Hex(), nil
 }
